@@ -7,12 +7,15 @@ import Driver.C14
 import Driver.C12
 import Driver.Hand
 import Driver.Bcodec
+import Driver.Meta
 open Driver
 
 def dispatch (line : String) : Verdict :=
   let toks := splitTokens line
   let (l, r) := splitBar toks
   match l with
+  | "C03" :: args => c03 args r
+  | "C04" :: args => c04 args r
   | "C06" :: "hand" :: args => handVerdict "C06" ("hand" :: args) r
   | "C06" :: args => c06 args r
   | "C07" :: args => c07 args r
